@@ -230,6 +230,8 @@ class YmlProjectIo(ProjectIoInterface):
         scheme_path = result_folder / "scheme.yml"
         save_scheme(scheme, scheme_path, allow_overwrite=True)
         paths.append(scheme_path.as_posix())
+        # The scheme was saved as a copy, the result needs to reference the saved file.
+        result.scheme.source_path = scheme.source_path
 
         result_dict = asdict(result, folder=result_folder)
         write_dict(result_dict, file_name=result_file_path)
